@@ -10,7 +10,7 @@ EPS = 0.001
 KW = {'transport_timeout_s': 0.1, 'read_timeout_s': 0.2}
 RULE = ('scenario connect, a streaming_shell left suspended after its first item (so its packets get parked), shell, stat, list, pull, push (2 WRTE), streaming_shell, rest of the suspended stream; a fault {timeout exception once, sticky connection reset, sticky end-of-stream} injected at EVERY index of the '
         'transport-call sequence (connect / bulk_read / bulk_write), then (close | nothing), connect to a healthy device and the whole scenario again; pairs: a second fault at every index of the '
-        'recovery pass (quick: every 4th index, stated cap); both twins; oracle: each call raises or returns the solo result, never a wrong value; afterwards no internal lock is held, close() and '
+        'recovery pass (quick: every 4th index, stated cap); single faults also over a transport that splits every block in two (faults inside headers and payloads) and with the broken session\'s undelivered packets arriving after the next CNXN; both twins; oracle: each call raises or returns the solo result, never a wrong value; afterwards no internal lock is held, close() and '
         'connect() complete under the call watchdog, the packet store is empty after connect(), the replayed scenario returns the solo results and the model filesystem receives the right file; '
         'the device wire order between the suspended stream and the running one is a budgeted choice (<=1 deviation for single faults); non-trivial = every case; distinct = distinct (fault indices, kinds, close?, twin, choices)')
 ASSUMPTIONS = ['adbsim device model; a new connection carries no stale bytes (as a new TCP connection does)', 'lock state is read from the object\'s Lock attributes after each pass']
@@ -27,16 +27,20 @@ CFG['shell'][b'shell:other'] = [b'other-1', b'other-2', b'other-3']
 _SOLO = {}
 
 
-def solo(twin):
-    if twin not in _SOLO:
-        s = Session(FixedChooser(), CFG, twin=twin, eps=EPS)
+def solo(twin, policy=None):
+    key = (twin, policy)
+    if key not in _SOLO:
+        cfg = dict(CFG)
+        if policy:
+            cfg['frag_policy'] = policy
+        s = Session(FixedChooser(), cfg, twin=twin, eps=EPS)
         try:
             res = [s.op(('connect', dict(KW)))] + [s.op(o) for o in ops()]
             assert all(r[0] == 'ok' for r in res), res
-            _SOLO[twin] = (res, s.env.calls)
+            _SOLO[key] = (res, s.env.calls)
         finally:
             s.finish()
-    return _SOLO[twin]
+    return _SOLO[key]
 
 
 def locks_of(dev):
@@ -46,9 +50,13 @@ def locks_of(dev):
 
 def run_fault(params, ch):
     twin = params['twin']
-    want, ncalls = solo(twin)
+    want, ncalls = solo(twin, params.get('policy'))
     cfg = dict(CFG)
     cfg['faults'] = {int(k): v for k, v in params['faults']}
+    if params.get('policy'):
+        cfg['frag_policy'] = params['policy']
+    if params.get('stale'):
+        cfg['carry_stale'] = True
     s = Session(ch, cfg, twin=twin, eps=EPS, max_calls=40000, order_budgeted=True)
     try:
         viol = []
@@ -121,6 +129,23 @@ def parts(tier):
                 for close in (True, False):
                     sc.append({'twin': t, 'faults': [[k, kind]], 'close': close})
     out.append(Part('single-faults', sc, run_fault, {'dev-order': 1}, what='one fault at every transport-call index x 3 kinds x close/no close x <=1 deviation of the device wire order', bound='%d (index, kind, close, twin) cases' % len(sc)))
+    sc = []
+    for t in twins:
+        n = solo(t, 'half')[1]
+        for k in range(n):
+            for kind in KINDS:
+                sc.append({'twin': t, 'faults': [[k, kind]], 'close': k % 2 == 0, 'policy': 'half'})
+    out.append(Part('single-faults-short-reads', sc, run_fault, {'dev-order': 0}, what='the same with a transport that delivers every block in two pieces, so that faults also fall inside headers and payloads',
+                    bound='%d cases' % len(sc)))
+    sc = []
+    for t in twins:
+        n = solo(t)[1]
+        for k in range(n):
+            for kind in ('timeout', 'reset'):
+                for close in (True, False):
+                    sc.append({'twin': t, 'faults': [[k, kind]], 'close': close, 'stale': True})
+    out.append(Part('single-faults-stale-packets', sc, run_fault, {'dev-order': 0}, what='whole packets of the broken session are delivered after the CNXN of the next session (unflushed pipe / slow device)',
+                    bound='%d cases' % len(sc)))
     sc = []
     step = 4 if tier == 'quick' else 1
     for t in twins:
